@@ -93,6 +93,9 @@ fn main() {
     if prop == "C02" {
         ops::c02_too_long(&mut out);
     }
+    if prop == "C03" || prop == "C02" {
+        ops::c03_fastpath(&mut g, thorough, &mut out);
+    }
     if prop == "C05" || prop == "C01" {
         ops::large_bytes(&mut g, thorough, &mut out);
     }
